@@ -313,7 +313,7 @@ func runC07(c *Ctx) {
 		}
 	}
 	n := c.N(900, 20000)
-	maxCert := c.N(1500, 6000)
+	maxCert := c.Bound(1500, 6000)
 	for i := 0; i < n; i++ {
 		s, class := genWfStream(rng, 5, maxCert)
 		c.evalDecode("c07_decode", "grammar/"+class, s, decodeEntries(rng), nil)
